@@ -50,6 +50,9 @@ def resolve_target(target):
     return obj
 
 
+_REQ_CACHE = {}
+
+
 class PathRecord:
     __slots__ = ("decisions", "outcome", "detail", "trace", "n_obligations")
 
@@ -98,7 +101,8 @@ def run_contract(cc, config=None, max_paths=20000, name=None, extra_roots=(), bu
     ensure_repo_on_path()
     config = dict(config or {})
     target = cc.target
-    tname = name or (target.split(":")[1] + (("[" + ",".join(f"{k}={v}" for k, v in sorted(config.items())) + "]") if config else ""))
+    suffix = ("[" + ",".join(f"{k}={v}" for k, v in sorted(config.items())) + "]") if config else ""
+    tname = (name or target.split(":")[1]) + suffix
     res = TaskResult(tname, target)
     func = resolve_target(target) if not getattr(cc, "lemma", False) else None
     t0 = time.time()
@@ -191,8 +195,44 @@ def _run_one(cc, func, it, ctx, config, res, tname):
     if req is not None:
         req = req.__func__ if isinstance(req, staticmethod) else req
         ctx.mode = "assume"
-        v = it.call(req, list(args), dict(kwargs))
-        assume_value(it, v)
+        ckey = (id(cc), repr(sorted(config.items())), tuple(ctx.decisions[: ctx.di]))
+        cached = _REQ_CACHE.get(ckey) if getattr(cc, "cache_requires", True) else None
+        if cached is not None and cached["names"] == dict(ctx.names) and cached["npc"] == len(ctx.pc):
+            for f in cached["facts"]:
+                ctx.pc.append(f)
+            ctx.solver.add(*cached["facts"]) if cached["facts"] else None
+            ctx.universals.extend(cached["universals"])
+            for r, ts in cached["index"].items():
+                for t in ts:
+                    ctx.add_index_term(r, t)
+            ctx.names = dict(cached["names_after"])
+            ctx._dirty = True
+            if cached["lits"] is not None:
+                ctx._lits_done = cached["lits"]
+            lbk = getattr(ctx, "_lawbook", None)
+            if lbk is None:
+                from .laws import lawbook
+
+                lbk = lawbook(ctx)
+            lbk.seen |= cached["seen"]
+        else:
+            names0, npc0, nu0 = dict(ctx.names), len(ctx.pc), len(ctx.universals)
+            idx0 = {r: len(v_) for r, v_ in ctx.index_terms.items()}
+            seen0 = set(getattr(getattr(ctx, "_lawbook", None), "seen", ()))
+            ndec0 = ctx.di
+            v = it.call(req, list(args), dict(kwargs))
+            assume_value(it, v)
+            if ctx.di == ndec0 and getattr(cc, "cache_requires", True):
+                _REQ_CACHE[ckey] = {
+                    "names": names0,
+                    "npc": npc0,
+                    "facts": list(ctx.pc[npc0:]),
+                    "universals": list(ctx.universals[nu0:]),
+                    "index": {r: list(v_[idx0.get(r, 0):]) for r, v_ in ctx.index_terms.items()},
+                    "names_after": dict(ctx.names),
+                    "lits": getattr(ctx, "_lits_done", None),
+                    "seen": set(getattr(getattr(ctx, "_lawbook", None), "seen", ())) - seen0,
+                }
     # vacuity: the precondition must be satisfiable on this path (checked by the solver later)
     ctx.oblige(f"{tname}.requires-reachable", z3.BoolVal(False), kind="vacuity")
     env_keys = [k for k in env if not k.startswith("cfg_") and k not in ("inbound", "inbound_label")]
@@ -264,7 +304,11 @@ def _run_one(cc, func, it, ctx, config, res, tname):
     # that needs to branch (or whose evaluation can raise) falls back to exec mode, one such clause
     # per path (clauses fork independently: sum, not product, of their paths).
     fallback = []
+    only = cc.__dict__.get("clause_when") or {}
     for nm, fn in items:
+        cond = only.get(nm)
+        if cond is not None and not cond(config):
+            continue  # the clause is guarded by a message kind this configuration excludes: trivially true
         fn = fn.__func__ if isinstance(fn, staticmethod) else fn
         ctx.push_scope()
         it.pure_cache = {}
